@@ -13,7 +13,7 @@ ShapesC42 == {Sh("e", 0, {}), Sh("b", 2, {})}
 \* C43: 0..3 logs from 3 addresses x 3 topics (one EVM call per log)
 ShapesC43 == {Sh("l0", 0, {}), Sh("l1", 1, {<<"a1", "t1">>}), Sh("l2", 2, {<<"a2", "t2">>, <<"a1", "t3">>}),
               Sh("l3", 3, {<<"a3", "t1">>, <<"a3", "t3">>, <<"a2", "t1">>})}
-ShapesC43t3 == {Sh("l0", 0, {}), Sh("l0f", 1, {}), Sh("l2", 2, {<<"a2", "t2">>, <<"a1", "t3">>}), Sh("l3", 3, {<<"a3", "t1">>, <<"a3", "t3">>, <<"a2", "t1">>})}
+ShapesC43t3 == {Sh("l0", 0, {}), Sh("l0f", 1, {}), Sh("l3", 3, {<<"a3", "t1">>, <<"a3", "t3">>, <<"a2", "t1">>})}
 \* a shape name ending in "f": the block additionally carries a FAILING EVM transaction (its fee log is still an event)
 ShapesC43q == {Sh("l0", 0, {}), Sh("l0f", 1, {}), Sh("l2", 2, {<<"a2", "t2">>, <<"a1", "t3">>})}
 
